@@ -281,6 +281,37 @@ Proof.
   rewrite E1, E2 in H. exact H.
 Qed.
 
+Lemma select_index_branch bs d k : select_index bs d = Some k -> select_branch bs d = nth_error (map snd bs) k.
+Proof.
+  revert k; induction bs as [|[c t] r IH]; intros k H; cbn [select_index select_branch] in *; [discriminate|].
+  destruct (cond_holds c d); [inversion H; reflexivity|].
+  destruct (select_index r d) as [k'|]; [|discriminate]. inversion H; subst. cbn [map nth_error]. apply IH. reflexivity.
+Qed.
+Lemma same_index_select bs d D : same_index bs d D = true -> select_branch bs (Z.of_nat d) = select_branch bs (Z.of_nat D).
+Proof.
+  unfold same_index. destruct (select_index bs (Z.of_nat d)) as [a|] eqn:Ea; [|discriminate].
+  destruct (select_index bs (Z.of_nat D)) as [c|] eqn:Ec; [|discriminate]. intros H. apply Nat.eqb_eq in H. subst c.
+  rewrite (select_index_branch _ _ _ Ea), (select_index_branch _ _ _ Ec). reflexivity.
+Qed.
+Lemma TriQuadExact_mono d D eps pts ws : (d <= D)%nat -> TriQuadExact D eps pts ws -> TriQuadExact d eps pts ws.
+Proof. intros Hd [L [H R]]. split; [exact L|]. split; [|exact R]. intros i j Hij. apply H. lia. Qed.
+
+Theorem tri_tables_ok_sound S bs tn td dmax : (0 <= S)%Z -> (0 < td)%Z -> tri_tables_ok S bs tn td dmax = true ->
+  forall d, (1 <= d <= dmax)%nat ->
+  exists pts ws, select_branch bs (Z.of_nat d) = Some (pts, ws) /\
+    TriQuadExact d (IZR tn / IZR td) (map Q2R2 pts) (map Q2R ws).
+Proof.
+  intros HS Htd H d Hd. unfold tri_tables_ok in H. cbv zeta in H. rewrite andb_true_iff in H. destruct H as [H1 H2].
+  rewrite forallb_forall in H1, H2.
+  assert (Hin : In d (seq 1 dmax)) by (apply in_seq; lia).
+  specialize (H2 _ Hin). apply existsb_exists in H2. destruct H2 as [D [HD HdD]].
+  rewrite andb_true_iff in HdD. destruct HdD as [Hle Hsame]. apply Nat.leb_le in Hle.
+  specialize (H1 _ HD). apply tri_table_ok_sound in H1; [|exact HS|exact Htd].
+  destruct H1 as [pts [ws [Hsel HQ]]]. exists pts, ws. split.
+  - rewrite (same_index_select _ _ _ Hsame). exact Hsel.
+  - eapply TriQuadExact_mono; eassumption.
+Qed.
+
 (* instances for binary64 tables (b = 2) *)
 Lemma two_le_2 : (2 <= 2)%Z.
 Proof. lia. Qed.
